@@ -197,6 +197,8 @@ func runCheck(root, repo string, spec *CheckSpec, tier string, seed int, only st
 	outDir := filepath.Join(root, "out", spec.ID)
 	os.MkdirAll(outDir, 0o755)
 	old, _ := filepath.Glob(filepath.Join(outDir, "cex-*.json"))
+	oldW, _ := filepath.Glob(filepath.Join(outDir, "witness-*.json"))
+	old = append(old, oldW...)
 	for _, f := range old {
 		os.Remove(f)
 	}
@@ -397,6 +399,68 @@ func runCheck(root, repo string, spec *CheckSpec, tier string, seed int, only st
 			}
 		}
 	}
+	// Witness replay: entries whose environment is an engine MODEL of a reflection
+	// library (envconfig, mergo, DisplayJSON ...) are also run natively, on a few
+	// inputs the solver found for passing paths, through the real libraries. An
+	// assertion that fails natively on such an input is a violation reproduced
+	// against the real code (the model and the implementation disagree).
+	witnessesReplayed := 0
+	if exit == 0 && !noReplay {
+		for _, ur := range runs {
+			var paths []string
+			var labels []string
+			for _, res := range ur.results {
+				if !res.Cfg.WitnessReplay || (res.Cfg.NativeReplay != nil && !*res.Cfg.NativeReplay) {
+					continue
+				}
+				n := 0
+				for _, smp := range res.Samples {
+					if n >= 3 || len(smp.Inputs) == 0 && n >= 1 {
+						break
+					}
+					n++
+					cexN++
+					w := &Violation{Entry: res.Cfg.Func, Label: "(witness)", Decisions: smp.Decisions, Model: smp.Inputs, Params: res.Cfg.Params}
+					pth := filepath.Join(outDir, fmt.Sprintf("witness-%d.json", cexN))
+					b, _ := json.MarshalIndent(w, "", " ")
+					os.WriteFile(pth, b, 0o644)
+					paths = append(paths, pth)
+					labels = append(labels, res.Cfg.Func)
+				}
+			}
+			if len(paths) == 0 {
+				continue
+			}
+			outs, err := replayNative(root, repo, ur.unit, paths, false)
+			if err != nil {
+				fmt.Printf("INCONCLUSIVE property=%s witness replay could not be built: %v\n", spec.ID, err)
+				exit = 2
+				continue
+			}
+			for i, out := range outs {
+				witnessesReplayed++
+				if strings.Contains(out, "VRF-ASSUME-FAILED") || !strings.Contains(out, "(desync=0)") {
+					continue // this input does not drive the native run down the same path
+				}
+				var failed []string
+				for _, ln := range strings.Split(out, "\n") {
+					if strings.HasPrefix(ln, "VRF-ASSERT-FAILED ") {
+						failed = append(failed, strings.TrimPrefix(ln, "VRF-ASSERT-FAILED "))
+					} else if strings.HasPrefix(ln, "VRF-PANIC") {
+						failed = append(failed, labels[i]+".no-panic")
+					}
+				}
+				if len(failed) > 0 {
+					fmt.Printf("VIOLATION property=%s replay=%s\n", spec.ID, paths[i])
+					fmt.Printf("  label=%s entry=%s: found by native witness replay - on this input the real code fails the assertion although the engine's model of a library it calls satisfied it\n%s\n", failed[0], labels[i], tail(out, 8))
+					nViol++
+					replayed++
+					exit = 1
+					break
+				}
+			}
+		}
+	}
 	for _, l := range knownLines {
 		fmt.Println(l)
 	}
@@ -533,7 +597,7 @@ func replayOnly(root, repo string, spec *CheckSpec, path string) int {
 					return 2
 				}
 				fmt.Println(outs[0])
-				if strings.Contains(outs[0], "VRF-REPRODUCED "+v.Label) {
+				if strings.Contains(outs[0], "VRF-REPRODUCED "+v.Label) || (v.Label == "(witness)" && (strings.Contains(outs[0], "VRF-ASSERT-FAILED ") || strings.Contains(outs[0], "VRF-PANIC"))) {
 					fmt.Printf("VIOLATION property=%s replay=%s\n", spec.ID, path)
 					return 1
 				}
